@@ -586,7 +586,7 @@ func (a *Analysis) call(st *State, fr *frame, c *ssa.Call) {
 		freshDst := r != nil && st.fresh[r.Key]
 		for k := range st.mem {
 			me := st.memE[k]
-			if me == nil || (me.Op != "ia" && me.Op != "bea") {
+			if me == nil || (me.Op != "ia" && me.Op != "bea" && me.Op != "cpa") {
 				continue
 			}
 			sameRoot := me.Args[0].Key == droot.Key
@@ -598,24 +598,40 @@ func (a *Analysis) call(st *State, fr *frame, c *ssa.Call) {
 				if mr != nil && st.fresh[mr.Key] {
 					continue
 				}
-				if aliasClass(me) != "E:*"+typeKey(cc.Args[0].Type().Underlying().(*types.Slice).Elem()) && me.Op != "bea" {
+				if aliasClass(me) != strings.ReplaceAll("E:*"+typeKey(cc.Args[0].Type().Underlying().(*types.Slice).Elem()), "byte", "uint8") && me.Op != "bea" {
 					continue
 				}
 				delete(st.mem, k)
 				delete(st.memE, k)
 				continue
 			}
-			if idx, isC := me.Args[1].IsConst(); isC && loKnown && idx < lo && me.Op == "ia" {
-				continue // below the written range
+			if idx, isC := me.Args[1].IsConst(); isC && loKnown {
+				w := int64(1)
+				if me.Op == "bea" {
+					w = map[string]int64{"be16": 2, "be32": 4, "be64": 8}[me.S]
+				}
+				if idx+w <= lo && me.Op != "cpa" {
+					continue // below the written range
+				}
 			}
 			delete(st.mem, k)
 			delete(st.memE, k)
 		}
-		cls := "E:*" + typeKey(cc.Args[0].Type().Underlying().(*types.Slice).Elem())
+		cls := strings.ReplaceAll("E:*"+typeKey(cc.Args[0].Type().Underlying().(*types.Slice).Elem()), "byte", "uint8")
 		if freshDst {
 			st.ver["A:"+r.Key] = siteTok(fr, c)
 		} else {
 			st.ver[cls] = siteTok(fr, c)
+		}
+		// a copy that provably fits into a buffer allocated here is remembered
+		// as "the bytes of src at offset lo" (layout.go)
+		if freshDst && loKnown && cls == "E:*uint8" && (droot.Op == "makeslice" || droot.Op == "arr") {
+			room := st.linOf(mkLen(args[0])).add(st.linOf(mkLen(args[1])), -1)
+			if st.impliedGE(room) {
+				addr := mk("cpa", nil, "", 0, droot, mkConst(lo, intT))
+				st.mem[addr.Key] = args[1]
+				st.memE[addr.Key] = addr
+			}
 		}
 		a.bind(st, fr, c, a.freshLeaf(st, fr, "val", c))
 		return
@@ -1029,7 +1045,9 @@ func (a *Analysis) partKey(st *State) string {
 		}
 	}
 	for _, prm := range a.Fn.Params {
-		if isBoolType(prm.Type()) {
+		// boolean parameters, and small unsigned parameters a switch has
+		// pinned to one constant (a dispatch octet): finitely many values
+		if ii := intTypeInfo(prm.Type()); isBoolType(prm.Type()) || (ii.ok && ii.unsigned && ii.bits == 8) {
 			if r, ok := st.rng[mkLeaf("param", prm.Name(), prm.Type()).Key]; ok {
 				if c, isC := r.IsConst(); isC {
 					parts = append(parts, fmt.Sprintf("%s=%d", prm.Name(), c))
